@@ -88,6 +88,7 @@ type FnCtx struct {
 	cloFrames map[ssa.Value]*Frame
 	ground   map[string]bool
 	localMaps map[string]bool
+	refArr   map[string]bool
 }
 
 type retInfo struct {
@@ -468,6 +469,18 @@ func (fc *FnCtx) regArr(name, sort string) {
 	}
 }
 
+// markRefLeaves records which leaf arrays of a location of type t hold references.
+func (fc *FnCtx) markRefLeaves(base string, t types.Type) {
+	switch kindOf(t) {
+	case KSlice:
+		fc.refArr[base+"!base"] = true
+	case KIface:
+		fc.refArr[base+"!val"] = true
+	case KRef:
+		fc.refArr[base] = true
+	}
+}
+
 func (fc *FnCtx) embFn(st types.Type, f int) string {
 	s := st.Underlying().(*types.Struct)
 	n := "emb!" + structName(st) + "." + s.Field(f).Name()
@@ -592,6 +605,14 @@ func (fc *FnCtx) load(st *State, a *Addr, t types.Type) Val {
 		return Val{T: t, S: a.Obj}
 	}
 	base := fc.locName(a, t)
+	fc.markRefLeaves(base, t)
+	defer func() {
+		// heap well-typedness: whatever is read from a location of type t is a well-typed value
+		if key := "ty:" + base + "|" + a.Obj + "|" + a.Idx + "|" + fmt.Sprint(st.id); !fc.ground[key] && a.Kind != aLocal && a.Kind != aGlobal {
+			fc.ground[key] = true
+			fc.typingOfLoad(st, a, t, base)
+		}
+	}()
 	v := fc.buildFromLeaves(t, func(suffix string) string {
 		n := base + suffix
 		var ls string
@@ -604,6 +625,18 @@ func (fc *FnCtx) load(st *State, a *Addr, t types.Type) Val {
 		return fc.selectAt(a, st.get(n))
 	})
 	return v
+}
+
+func (fc *FnCtx) typingOfLoad(st *State, a *Addr, t types.Type, base string) {
+	v := fc.buildFromLeaves(t, func(suffix string) string {
+		return fc.selectAt(a, st.get(base+suffix))
+	})
+	if f := fc.typingFacts(st, v); f != "true" {
+		if strings.Contains(f, "q!") {
+			return // inside a quantifier: bound variables are not in scope for a global fact
+		}
+		fc.define(f)
+	}
 }
 
 // typing facts of a loaded value (range, slice well-formedness, refs below the allocation top)
@@ -671,6 +704,7 @@ func (fc *FnCtx) storeNames(a *Addr, t types.Type, out map[string]bool) {
 		return
 	}
 	base := fc.locName(a, t)
+	fc.markRefLeaves(base, t)
 	for _, l := range fc.leafSorts(t) {
 		fc.regArr(base+l[0], fc.arrSortFor(a, l[1]))
 		out[base+l[0]] = true
